@@ -234,3 +234,87 @@ func ZZLeaderPipeline(k int) {
 	}
 	vReach("end")
 }
+
+// ZZNodeTerm (C05, server side): a node (kind 0 follower controller, 1 leader controller) adopts an
+// arbitrary term T1, crashes (losing every KV batch after the last flush) and restarts through the real
+// constructor: the term is read back, the node is FENCED, lower terms are refused, and on a leader
+// controller BecomeLeader succeeds only from FENCED in exactly that term, once.
+func ZZNodeTerm(kind int) {
+	w, m := zzLeaderState(1, 0)
+	T1 := vInt64("t1")
+	vAssume(T1 >= 0)
+	vAssume(T1 < 1000)
+	T2 := vInt64("t2")
+	vAssume(T2 >= 0)
+	vAssume(T2 < 1000)
+	if kind == 0 {
+		fc := zzFollowerOver(w, m, -1)
+		vAssert("fresh-node-not-member", fc.status == proto.ServingStatus_NOT_MEMBER && fc.term == -1)
+		_, err := fc.NewTerm(&proto.NewTermRequest{Term: T1})
+		vAssert("first-term-accepted", err == nil && fc.term == T1)
+		m.zzCrash()
+		fc2 := zzFollowerOver(w, m, -1)
+		vAssert("term-survives-crash", fc2.term == T1)
+		vAssert("restarts-fenced", fc2.status == proto.ServingStatus_FENCED)
+		_, err = fc2.NewTerm(&proto.NewTermRequest{Term: T2})
+		vAssert("term-never-decreases", (err == nil) == (T2 >= T1))
+		vAssert("term-is-max", fc2.term >= T1 && (err != nil || fc2.term == T2))
+	} else {
+		lc := zzLeaderOver(w, m, -1, &zzRpc{})
+		_, err := lc.NewTerm(&proto.NewTermRequest{Term: T1})
+		vAssert("first-term-accepted", err == nil && lc.term == T1)
+		m.zzCrash()
+		lc2 := zzLeaderOver(w, m, -1, &zzRpc{})
+		vAssert("term-survives-crash", lc2.term == T1)
+		vAssert("restarts-fenced", lc2.status == proto.ServingStatus_FENCED)
+		_, err = lc2.BecomeLeader(context.Background(), &proto.BecomeLeaderRequest{Term: T2, ReplicationFactor: 1})
+		vAssert("become-leader-only-in-own-term", (err == nil) == (T2 == T1))
+		if err == nil {
+			vAssert("leader-in-that-term", lc2.status == proto.ServingStatus_LEADER && lc2.term == T1)
+			_, err2 := lc2.BecomeLeader(context.Background(), &proto.BecomeLeaderRequest{Term: T1, ReplicationFactor: 1})
+			vAssert("second-become-leader-refused", err2 != nil)
+			_, err3 := lc2.NewTerm(&proto.NewTermRequest{Term: T1})
+			vAssert("same-term-new-term-refused-while-leading", err3 != nil && lc2.status == proto.ServingStatus_LEADER)
+		} else {
+			vAssert("stays-fenced", lc2.status == proto.ServingStatus_FENCED && lc2.term == T1)
+		}
+	}
+	vReach("end")
+}
+
+// ZZDirector (C04): the shards director holds a serving leader of term T; a follower-side request
+// (Replicate / Truncate / SendSnapshot arrive through GetOrCreateFollower) names an arbitrary term.
+// The leader is given up only for its own term (or the legacy "no term" value); any other term is
+// refused and leaves the leader serving.
+func ZZDirector() {
+	w, m := zzLeaderState(1, 0)
+	T := int64(3)
+	d0, _ := kv.NewDB("zz", 1, &zzFactory{kv: m}, 0, nil)
+	_ = d0.UpdateTerm(T, kv.TermOptions{})
+	sd := NewShardsDirector(zzConfig(), &zzWalFactory{w}, &zzFactory{kv: m}, &zzRpc{}).(*shardsDirector)
+	l, err := sd.GetOrCreateLeader("zz", 1)
+	vAssert("leader-created", err == nil)
+	lc := l.(*leaderController)
+	_, err = lc.BecomeLeader(context.Background(), &proto.BecomeLeaderRequest{Term: T, ReplicationFactor: 1})
+	vAssert("leading", err == nil && lc.status == proto.ServingStatus_LEADER)
+	rt := vInt64("requestTerm")
+	vAssume(rt >= -1)
+	vAssume(rt < 100)
+	f, err := sd.GetOrCreateFollower("zz", 1, rt)
+	if rt == T || rt < 0 {
+		vAssert("own-term-converts", err == nil && f != nil)
+		_, still := sd.leaders[1]
+		vAssert("leader-removed", !still)
+		vAssert("old-leader-closed", lc.status == proto.ServingStatus_NOT_MEMBER)
+		if err == nil {
+			vAssert("follower-restarts-fenced-in-stored-term", f.(*followerController).status == proto.ServingStatus_FENCED && f.(*followerController).term == T)
+		}
+		vReach("converted")
+	} else {
+		vAssert("other-term-refused", err != nil)
+		_, still := sd.leaders[1]
+		vAssert("leader-kept", still && lc.status == proto.ServingStatus_LEADER)
+		vReach("refused")
+	}
+	vReach("end")
+}
